@@ -357,7 +357,7 @@ OBSERVERS = [
     ("_ENV", "echo isset($_ENV['C20']) ? 'y' : 'n';", "_ENV"),
     ("_SESSION", "echo isset($_SESSION['c20']) ? 'y' : 'n';", "_SESSION"),
     ("_COOKIE", "echo isset($_COOKIE['c20']) ? 'y' : 'n';", "_COOKIE"),
-    ("_REQUEST", "echo isset($_REQUEST['c20']) ? 'y' : 'n';", "_REQUEST"),
+    ("_REQUEST", "echo isset($_REQUEST['c20']) ? 'y' : 'n';", ["_REQUEST", "_GET", "_POST", "_COOKIE"]),
     ("ob_level", "echo ob_get_level();", "ob_level"),
     ("getenv", "echo getenv('C20ENV') === false ? 'n' : 'y';", "putenv"),
     ("spl_autoload", "echo count(spl_autoload_functions());", "spl_autoload"),
@@ -504,6 +504,13 @@ def main(ck):
                 terms.append("(%s, %s)" % (coq_list(coq_om_op(x) for x in c["ops"]), coq_list(coq_om_res(r) for r in o["res"])))
                 idx.append(i)
             bad = ck.eval_cases("om", HEADER, terms, "check_om", shard=1200)
+            if ck.replay:
+                for c, o in zip(om_cases, outs):
+                    ops = coq_list(coq_om_op(x) for x in c["ops"])
+                    ck.log("replay om ops: %s" % json.dumps(c["ops"]))
+                    ck.log("implementation: %s" % json.dumps(o.get("res")))
+                    ck.log("model:          %s" % ck.eval_print(HEADER, "snd (om_run %s om_new)" % ops))
+                    ck.log("spec:           %s" % ck.eval_print(HEADER, "snd (a_run (map to_sop %s) [])" % ops))
             evaluations += len(om_cases)
             traces += len(terms)
             seen = set()
@@ -559,6 +566,11 @@ def main(ck):
                                                coq_list(coq_option(None if f is None else cs(f)) for f in found)))
                 idx.append(i)
             bad = ck.eval_cases("find", HEADER, terms, "check_find", shard=400)
+            if ck.replay:
+                for c, o in zip(find_cases, outs):
+                    ck.log("replay find: keys=%s name=%s" % (c["keys"], c["name"]))
+                    ck.log("implementation (distinct answers of %d lookups): %s" % (c.get("reps", 0), o.get("found")))
+                    ck.log("model / spec (find_ci, order independent): %s" % ck.eval_print(HEADER, "find_ci %s %s" % (coq_slist(c["keys"]), cs(c["name"]))))
             evaluations += len(find_cases)
             traces += len(terms)
             coll = 0
@@ -802,8 +814,9 @@ def main(ck):
     elif replay is None:
         for (pl, pa, wcell) in POLLUTERS:
             for (ol, ob, rcell) in OBSERVERS:
-                if wcell == rcell or rng.random() < (0.06 if quick else 0.5):
-                    pair_cases.append({"kind": "pair", "pl": pl, "ol": ol, "wcell": wcell, "rcell": rcell,
+                rcells = rcell if isinstance(rcell, list) else [rcell]
+                if wcell in rcells or rng.random() < (0.25 if quick else 1.0):
+                    pair_cases.append({"kind": "pair", "pl": pl, "ol": ol, "wcell": wcell, "rcell": rcells,
                                        "a": "<?php " + pa.replace("%INC%", incfile), "b": "<?php " + ob.replace("%INC%", incfile)})
         # generated probe programs as A and as B
         # (B must be deterministic on its own: probes with a recorded nondet finding are left out)
@@ -811,7 +824,7 @@ def main(ck):
         for _ in range(6 if quick else 60):
             a, _l, _e = gen_probe_program(rng, 10)
             b, _l, _e = gen_probe_program(rng, 10, det)
-            pair_cases.append({"kind": "pair", "pl": "probe-program", "ol": "probe-program", "wcell": "-", "rcell": "-", "a": a, "b": b})
+            pair_cases.append({"kind": "pair", "pl": "probe-program", "ol": "probe-program", "wcell": "-", "rcell": ["-"], "a": a, "b": b})
     if pair_cases:
         outs, rc, err = run_engine(binary, [{"kind": "pair", "a": c["a"], "b": c["b"]} for c in pair_cases], cwd=ck.bdir)
         if len(outs) != len(pair_cases):
@@ -832,15 +845,21 @@ def main(ck):
                         ck.violation("leak:probe-program", {"case": c, "impl_out": o, "clause": "(A;B) vs (B): B's output differs"})
                     continue
                 a = "[AWrite %s 1]" % cs(c["wcell"])
-                b = "[ARead %s]" % cs(c["rcell"])
+                rcs = c["rcell"] if isinstance(c["rcell"], list) else [c["rcell"]]
+                b = coq_list("ARead %s" % cs(r) for r in rcs)
                 terms.append("(%s, %s, %s, %s)" % (table, a, b, coq_bool(leak)))
                 idx.append(i)
             bad = ck.eval_cases("pair", HEADER, terms, "check_leak", shard=400)
+            if ck.replay:
+                for c, o in zip(pair_cases, outs):
+                    ck.log("replay pair: A = %s | B = %s" % (c["a"], c["b"]))
+                    ck.log("implementation: B alone -> %s ; B after A -> %s" % (json.dumps(o.get("alone")), json.dumps(o.get("after"))))
+                    ck.log("model: cell written %s (%s), cells read %s; spec: B must print the same" % (c.get("wcell"), CELLS.get(c.get("wcell")), c.get("rcell")))
             evaluations += len(terms)
             traces += len(terms)
-            nontriv += sum(1 for c in pair_cases if c["wcell"] == c["rcell"])
+            nontriv += sum(1 for c in pair_cases if c["wcell"] in c["rcell"])
             ck.cov["pair_cases"] = len(pair_cases)
-            ck.cov["pair_cases_same_cell"] = sum(1 for c in pair_cases if c["wcell"] == c["rcell"])
+            ck.cov["pair_cases_same_cell"] = sum(1 for c in pair_cases if c["wcell"] in c["rcell"])
             for j, cl in sorted(bad.items()):
                 c, o = pair_cases[idx[j]], outs[idx[j]]
                 if 1 in cl:
